@@ -270,6 +270,22 @@ def token_cases() -> list[dict]:
                   ("flag_SetPerformance", [("flag_SetPerformance", [f"i:{i}", "i:0"], -1), ("Return", [], -1)], 0)]
     for name, rs, idx in slots:
         out.append({"ctx": "slot-" + name, "tin": rs[[r[0] for r in rs].index(name)][1][idx], "alias": [], "rs": rs, "carrier": (name, idx)})
+    # several parameters of the same kind in ONE operation (and in neighbouring operations): each must come back as itself
+    L = lambda **kw: "l:" + ";".join(f"{k}={canon.hx(v)}" for k, v in sorted(kw.items()))
+    S = lambda v: "s:" + canon.hx(v)
+    P = lambda n, xo, yo, x, y: f"p:{canon.hx(n)},{xo},{yo},{x},{y}"
+    multi = [[L(english="one"), L(english="two")],
+             [L(english="e1", french="f1"), "i:3", L(english="e2", german="g2"), S("s1"), S("s2"), L(french="f3")],
+             [S("a"), S("b"), S("a'b"), S('a"b')],
+             [P("m1", 0, 2, 3, 4), P("m2", 2, 0, 5, 6), P("m1", 2, 2, 7, 8)],
+             ["f:1.5", "f:-0.25", "i:-1", "c:K1", "c:K2", "f:12.004"]]
+    for ps in multi:
+        for idx in range(len(ps)):
+            out.append({"ctx": "multi-arg", "tin": ps[idx], "alias": [], "rs": [("x", ps, -1), ("y", list(reversed(ps)), -1), ("Return", [], -1)], "carrier": ("x", idx)})
+            out.append({"ctx": "multi-arg-2nd-op", "tin": list(reversed(ps))[idx], "alias": [], "rs": [("x", ps, -1), ("y", list(reversed(ps)), -1), ("Return", [], -1)], "carrier": ("y", idx)})
+    msw = [("message_SwitchTalk", ["c:$V"], -1), ("CaseText", ["i:1", L(english="c1", french="c1f")], -1), ("CaseText", ["i:2", L(english="c2")], -1),
+           ("DefaultText", [L(english="d", german="dg")], -1), ("Return", [], -1)]
+    out.append({"ctx": "multi-defaulttext", "tin": msw[3][1][0], "alias": [], "rs": msw, "carrier": ("DefaultText", 0)})
     for i in range(4):
         c = f"c:{decomp.DMODE[i]}"
         out.append({"ctx": "dmode-set", "tin": f"i:{i}", "alias": [c], "rs": [("flag_SetDungeonMode", ["i:5", f"i:{i}"], -1), ("Return", [], -1)], "carrier": ("flag_SetDungeonMode", 1)})
